@@ -79,11 +79,14 @@ class Impl:
         k = op['op']
         D = self.DFRA
         self._impl_done = False
+        self.args = []          # (what, array, snapshot, stored_by_design)
+        self.returned = []      # arrays returned to the caller
         try:
             if k == 'ctor':
                 data = {}
                 for n, b in op['cols']:
                     data[fname(n)] = self.arr(b)
+                    self.args.append(('constructor column ' + fname(n), data[fname(n)], data[fname(n)].copy(), not op['copy']))
                 kw = {}
                 if op['keep'] is not None:
                     kw['keep_fields'] = [fname(n) for n in op['keep']]
@@ -133,6 +136,7 @@ class Impl:
             elif k == 'select':
                 a = self.objs[op['src']]
                 sel = self.sel(op['sel'])
+                self.args.append(('selection index array', sel, sel.copy(), False))
                 o = a[sel] if op.get('via_getitem') else a.get_selection(sel)
                 self.objs.append(o)
                 self._impl_done = True
@@ -144,6 +148,7 @@ class Impl:
                 o = self.objs[op['t']]
                 a = self.objs[op['src']]
                 sel = self.sel(op['sel'])
+                self.args.append(('selection index array', sel, sel.copy(), False))
                 if op.get('via_setitem'):
                     o[sel] = a
                 else:
@@ -174,6 +179,7 @@ class Impl:
             elif k in ('append_field', 'setitem'):
                 o = self.objs[op['t']]
                 data = self.arr(op['buf'])
+                self.args.append(('field data array', data, data.copy(), True))
                 if k == 'append_field':
                     o.append_field(fname(op['name']), data)
                 else:
@@ -219,6 +225,7 @@ class Impl:
                 o = self.objs[op['t']]
                 idx = o.sort_by_field(fname(op['name']))
                 self._impl_done = True
+                self.returned.append(('sort_by_field result', idx))
                 perm = [int(i) for i in idx]
                 op['perm'] = perm
                 r = self.refs[op['t']]
@@ -394,6 +401,113 @@ def loc_pattern(locs):
     return [(j, i) for i in range(len(locs)) for j in range(i) if locs[i] == locs[j]]
 
 
+
+# ------------------------------------------------------------------ history probes (no model needed)
+
+def _table_state(o):
+    return ([n for n in o._data_fields], [a.dtype.str for a in o._data_fields.values()],
+            [a.tolist() for a in o._data_fields.values()], len(o),
+            None if o._indices is None else o._indices.tolist(), list(o._field_name_list))
+
+
+def history_probes(ctx, impl, site, case, op):
+    """metamorphic probes on the real objects: mutate-and-compare in both directions between all
+    live arrays, arguments are inputs, returned values belong to the caller, repeat / interleave,
+    fresh twin, no state shared between instances.  Every probe restores what it changes."""
+    objs = impl.objs
+    # (1) mutate-and-compare: add 1 to every live array exactly once, in place; if any two arrays
+    #     overlap (a view of a parent, a shared column, a shared cache) some element moves by 2
+    entries = []
+    for oi, o in enumerate(objs):
+        for nm, a in o._data_fields.items():
+            entries.append((oi, nm, a))
+        if o._indices is not None:
+            entries.append((oi, '<indices>', o._indices))
+    snaps = [a.copy() for _, _, a in entries]
+    try:
+        for _, _, a in entries:
+            np.add(a, 1, out=a, casting='unsafe')
+        bad = [i for i, (_, _, a) in enumerate(entries) if not np.array_equal(a, snaps[i] + 1)]
+    finally:
+        for _, _, a in entries:
+            np.subtract(a, 1, out=a, casting='unsafe')
+    if bad:
+        who = [(entries[i][0], entries[i][1]) for i in bad[:4]]
+        ctx.violation(site, 'write-through-aliasing',
+                      f'writing once into every live array moved elements of {who} twice: the arrays overlap '
+                      '(a write through one table is seen by another table / column)',
+                      case=case, impl=who, predicate='selections, copies and columns share no memory (mutate-and-compare, both directions)')
+    restored = [i for i, (_, _, a) in enumerate(entries) if not np.array_equal(a, snaps[i])]
+    if restored and not bad:
+        ctx.violation(site, 'write-through-aliasing', 'arrays not restored after the probe', case=case, impl=restored[:4])
+    # (2) arguments are inputs
+    live = [a for _, _, a in entries]
+    for what, arr, snap, stored in getattr(impl, 'args', []):
+        if arr.shape != snap.shape or not np.array_equal(arr, snap):
+            ctx.violation(site, 'argument-modified', f'the {what} handed to the call was changed by it',
+                          case=case, impl=arr.tolist()[:10], predicate='arguments are inputs')
+        if not stored and any(arr is b or np.shares_memory(arr, b) for b in live):
+            ctx.violation(site, 'argument-aliased', f'the {what} is aliased by a table afterwards',
+                          case=case, predicate='the table keeps no reference to its index / copied input arrays')
+    # (3) returned values are owned by the caller
+    for what, arr in getattr(impl, 'returned', []):
+        if any(arr is b or np.shares_memory(arr, b) for b in live):
+            ctx.violation(site, 'returned-array-aliased', f'the {what} shares memory with the table',
+                          case=case, predicate='returned arrays are owned by the caller')
+    # (4) repeat / interleave / fresh twin on the tables touched by this step
+    touched = set()
+    for key in ('t', 'src'):
+        if key in op and op[key] < len(objs):
+            touched.add(op[key])
+    if op['op'] in ('ctor', 'from', 'select') and objs:
+        touched.add(len(objs) - 1)
+    for oi in sorted(touched):
+        o = objs[oi]
+        if o.field_name_list != list(o._data_fields) or any(len(a) != len(o) for a in o._data_fields.values()):
+            continue                    # already reported by the invariants
+        before = _table_state(o)
+        try:
+            rec1 = o.as_numpy_record_array()
+            twin = o.copy()
+            keep1 = o.copy(keep_fields=o.field_name_list[:1]) if o.field_name_list else None
+            rec2 = o.as_numpy_record_array()
+            n1, n2 = len(o), len(o)
+            f1, f2 = list(o.field_name_list), list(o.field_name_list)
+        except Exception as ex:
+            ctx.violation(site, 'accessor-raises', f'object {oi}: {type(ex).__name__}: {ex}', case=case)
+            continue
+        if rec1.dtype != rec2.dtype or rec1.tolist() != rec2.tolist() or n1 != n2 or f1 != f2:
+            ctx.violation(site, 'repeat-differs', f'object {oi}: two identical reads differ', case=case,
+                          predicate='an observable is a function of the current table only')
+        if _table_state(o) != before:
+            ctx.violation(site, 'observer-changed-state', f'object {oi}: copy()/as_numpy_record_array changed the table',
+                          case=case, predicate='observers do not modify the table')
+        tw = _table_state(twin)
+        if (tw[0], tw[1], tw[2], tw[3], tw[5]) != (before[0], before[1], before[2], before[3], before[5]) or twin._indices is not None:
+            ctx.violation(site, 'copy-twin-differs', f'object {oi}: copy() differs from its origin', case=case,
+                          impl=tw[:3], predicate='copy() is an equal, independent table')
+        cols = list(o._data_fields.values()) + ([o._indices] if o._indices is not None else [])
+        outs = list(twin._data_fields.values()) + [rec1, rec2] + (list(keep1._data_fields.values()) if keep1 is not None else [])
+        if np.shares_memory(rec1, rec2) or any(np.shares_memory(x, c) for x in outs for c in cols):
+            ctx.violation(site, 'returned-array-aliased', f'object {oi}: copy()/as_numpy_record_array share memory with the table '
+                          'or with each other', case=case, predicate='returned arrays are owned by the caller')
+        # write into what was returned, the table must not move
+        for nm in (rec1.dtype.names or []):
+            rec1[nm] += 1
+        for a in twin._data_fields.values():
+            np.add(a, 1, out=a, casting='unsafe')
+        if _table_state(o) != before:
+            ctx.violation(site, 'returned-array-aliased', f'object {oi}: writing into a copy / record array changed the table',
+                          case=case, predicate='returned arrays are owned by the caller')
+    # (5) no state shared between instances
+    ids = {}
+    for oi, o in enumerate(objs):
+        for what, x in (('_data_fields', o._data_fields), ('_field_name_list', o._field_name_list)):
+            if id(x) in ids:
+                ctx.violation(site, 'shared-instance-state', f'objects {ids[id(x)]} and {oi} share their {what}',
+                              case=case, predicate='every table owns its dict and its field name list')
+            ids[id(x)] = oi
+
 # ------------------------------------------------------------------ predicates on the implementation
 
 def predicates(ctx, impl, ops, stepno, outcome, extra, before):
@@ -460,6 +574,7 @@ def predicates(ctx, impl, ops, stepno, outcome, extra, before):
         except Exception as ex:          # an accessor that raises on a consistent table
             ctx.violation(site, 'accessor-raises', f'object {oi}: {type(ex).__name__}: {ex}', case=case, impl=obs[oi],
                           predicate='public accessors work on every reachable table')
+    history_probes(ctx, impl, site, case, op)
     pat = share_pattern(arrays)
     if pat:
         ctx.violation(site, 'shared-memory', f'column arrays share memory: positions {pat[:4]}',
@@ -628,7 +743,7 @@ def gen_random_op(ctx, rng, impl, malformed_p):
         return {'op': 'from', 'src': s, 'keep': keep, 'conv': conv, 'exc': exc, 'copyflag': rng.choice([None, True, False])}
     if kind == 'select':
         s = pick()
-        return {'op': 'select', 'src': s, 'sel': rand_sel(rng, len(objs[s]), None, bad), 'via_getitem': rng.random() < 0.3}
+        return {'op': 'select', 'src': s, 'sel': rand_sel(rng, len(objs[s]), None, bad, ctx), 'via_getitem': rng.random() < 0.3}
     if kind == 'setsel':
         t = pick()
         s = pick()
@@ -637,7 +752,7 @@ def gen_random_op(ctx, rng, impl, malformed_p):
         want = None if (bad or rng.random() < 0.1) else k
         if k == 1 and rng.random() < 0.5:
             want = None       # broadcasting
-        return {'op': 'setsel', 't': t, 'src': s, 'sel': rand_sel(rng, n, want, bad), 'via_setitem': rng.random() < 0.3}
+        return {'op': 'setsel', 't': t, 'src': s, 'sel': rand_sel(rng, n, want, bad, ctx), 'via_setitem': rng.random() < 0.3}
     if kind == 'append':
         t = pick()
         if len(objs[t]) > MAXLEN:
@@ -685,27 +800,70 @@ def gen_random_op(ctx, rng, impl, malformed_p):
     return {'op': 'indices', 't': pick()}
 
 
-def rand_sel(rng, n, want, bad):
-    """selector on a table with n rows selecting `want` rows (None: any number)"""
-    use_mask = rng.random() < 0.4
+def rand_sel(rng, n, want, bad, ctx=None):
+    """selector on a table with n rows selecting `want` rows (None: any number).  Kinds: boolean
+    masks (all-True, all-False, mixed), integer arrays: contiguous ascending (from 0, inner block,
+    negative block), contiguous descending, strided, scattered, with duplicates, empty, single, full arange."""
+    def tag(kind, v):
+        if ctx is not None:
+            ctx.count('sel:' + kind)
+        return v
+    use_mask = rng.random() < 0.35
     if use_mask and n > 0:
         if bad and rng.random() < 0.5:
             m = n + rng.choice([-1, 1, 2])
-            return ('mask', [rng.random() < 0.5 for _ in range(max(1, m))])
+            return tag('mask-wrong-length', ('mask', [rng.random() < 0.5 for _ in range(max(1, m))]))
         if want is not None and want <= n:
+            if want == n:
+                return tag('mask-all-true', ('mask', [True] * n))
             mask = [True] * want + [False] * (n - want)
-            rng.shuffle(mask)
-            return ('mask', mask)
-        return ('mask', [rng.random() < 0.5 for _ in range(n)])
-    k = want if want is not None else rng.choice([0, 1, 1, 2, 3, n, n + 2])
+            if rng.random() < 0.3:
+                st = rng.randint(0, n - want)
+                mask = [st <= i < st + want for i in range(n)]         # contiguous block of True
+            else:
+                rng.shuffle(mask)
+            return tag('mask-count', ('mask', mask))
+        r = rng.random()
+        if r < 0.2:
+            return tag('mask-all-true', ('mask', [True] * n))
+        if r < 0.35:
+            return tag('mask-all-false', ('mask', [False] * n))
+        return tag('mask-mixed', ('mask', [rng.random() < 0.5 for _ in range(n)]))
     if n == 0:
         if bad:
-            return ('idx', [rng.randint(-1, 1) for _ in range(max(1, k))])
-        return ('idx', [])
-    idx = [rng.randint(-n, n - 1) for _ in range(k)]
+            return tag('idx-out-of-range', ('idx', [rng.randint(-1, 1) for _ in range(max(1, want or 1))]))
+        return tag('idx-empty', ('idx', []))
+    k = want if want is not None else rng.choice([0, 1, 1, 2, 2, 3, 3, n, n, max(1, n - 1), n + 2])
+    kind = rng.choice(['contig-asc', 'contig-asc', 'contig-asc', 'contig-from0', 'contig-neg', 'contig-desc',
+                       'strided', 'scattered-sorted', 'scattered', 'scattered', 'dups', 'arange'])
+    if k == 0:
+        idx, kind = [], 'empty'
+    elif kind == 'arange' and want is None:
+        idx = list(range(n))
+    elif kind in ('contig-asc', 'contig-from0', 'contig-neg', 'contig-desc') and k <= n:
+        st = 0 if kind == 'contig-from0' else rng.randint(0, n - k)
+        idx = list(range(st, st + k))
+        if kind == 'contig-neg':
+            idx = [i - n for i in idx]
+        if kind == 'contig-desc':
+            idx = idx[::-1]
+    elif kind == 'strided' and 2 * k - 1 <= n:
+        st = rng.randint(0, n - (2 * k - 1))
+        idx = list(range(st, st + 2 * k - 1, 2))
+    elif kind == 'scattered-sorted':
+        idx = sorted(rng.randint(0, n - 1) for _ in range(k))
+    elif kind == 'dups':
+        v = rng.randint(-n, n - 1)
+        idx = [v if rng.random() < 0.5 else rng.randint(-n, n - 1) for _ in range(k)]
+    else:
+        kind = 'scattered'
+        idx = [rng.randint(-n, n - 1) for _ in range(k)]
+    if k == 1:
+        kind = 'single'
     if bad and idx and rng.random() < 0.7:
         idx[rng.randrange(len(idx))] = rng.choice([n, -n - 1, n + 5])
-    return ('idx', idx)
+        kind = 'idx-out-of-range'
+    return tag('idx-' + kind, ('idx', idx))
 
 
 # ---- bounded-exhaustive alphabet: letters are functions of the current implementation state
@@ -723,6 +881,10 @@ def alphabet(full):
         'remove0': lambda im: {'op': 'remove', 't': 0, 'name': 0},
         'rename13': lambda im: {'op': 'rename', 't': 0, 'conv': [(1, 3), (5, 6)], 'must': False},
         'select': lambda im: ({'op': 'select', 'src': 0, 'sel': ('idx', [-1, 0])} if len(im.objs) < MAXOBJ else None),
+        'selblock': lambda im: ({'op': 'select', 'src': 0, 'sel': ('idx', list(range(0, min(2, n0(im)))))}
+                                if len(im.objs) < MAXOBJ else None),
+        'selmask': lambda im: ({'op': 'select', 'src': 0, 'sel': ('mask', [True] * n0(im)), 'via_getitem': True}
+                               if len(im.objs) < MAXOBJ else None),
         'setsel0L': lambda im: {'op': 'setsel', 't': 0, 'src': last(im), 'sel': ('idx', [0, -1][:len(im.objs[last(im)])] if len(im.objs[last(im)]) <= 2 else [0])},
         'sort': lambda im: {'op': 'sort', 't': 0, 'name': fnum(im.objs[0].field_name_list[-1]) if im.objs[0].field_name_list else 0},
         'copy': lambda im: ({'op': 'from', 'src': 0, 'keep': None, 'conv': [], 'exc': []} if len(im.objs) < MAXOBJ else None),
@@ -790,6 +952,20 @@ def corpus():
         # overlapping renames: swap, chain (4f30bc8)
         [two, {'op': 'rename', 't': 0, 'conv': [(0, 1), (1, 0)], 'must': True}, {'op': 'sort', 't': 0, 'name': 1},
          {'op': 'rename', 't': 0, 'conv': [(1, 0), (0, 3)], 'must': False}, {'op': 'from', 'src': 0, 'keep': None, 'conv': [], 'exc': []}],
+        # every index kind, then write through the selection and through the parent (both directions)
+        [{'op': 'ctor', 'cols': [(0, (2, list(range(10, 18)))), (1, (3, list(range(1, 9))))], 'keep': None, 'conv': [], 'exc': [], 'copy': True},
+         {'op': 'ctor', 'cols': [(0, (2, [-1, -2, -3])), (1, (3, [-4, -5, -6]))], 'keep': None, 'conv': [], 'exc': [], 'copy': True},
+         {'op': 'select', 'src': 0, 'sel': ('idx', [2, 3, 4])},
+         {'op': 'setsel', 't': 2, 'src': 1, 'sel': ('idx', [0, 1, 2])},
+         {'op': 'setsel', 't': 0, 'src': 1, 'sel': ('idx', [2, 3, 4])},
+         {'op': 'select', 'src': 0, 'sel': ('idx', [0, 1, 2, 3, 4, 5, 6, 7]), 'via_getitem': True},
+         {'op': 'setsel', 't': 3, 'src': 1, 'sel': ('mask', [True, False, True, False, True, False, False, False]), 'via_setitem': True},
+         {'op': 'select', 'src': 0, 'sel': ('idx', [-3, -2, -1])},
+         {'op': 'setsel', 't': 0, 'src': 1, 'sel': ('idx', [5, 6, 7])}],
+        [{'op': 'ctor', 'cols': [(0, (0, [5, 4, 3, 2, 1, 0]))], 'keep': None, 'conv': [], 'exc': [], 'copy': False},
+         {'op': 'select', 'src': 0, 'sel': ('idx', [4, 3, 2])}, {'op': 'select', 'src': 0, 'sel': ('idx', [0, 2, 4])},
+         {'op': 'select', 'src': 0, 'sel': ('mask', [True] * 6)}, {'op': 'select', 'src': 0, 'sel': ('mask', [False] * 6)},
+         {'op': 'setsel', 't': 1, 'src': 2, 'sel': ('idx', [0, 1, 2])}, {'op': 'setsel', 't': 0, 'src': 1, 'sel': ('idx', [1, 2, 3])}],
         # sort + append + indices, selection written back
         [two, {'op': 'indices', 't': 0}, {'op': 'sort', 't': 0, 'name': 0}, {'op': 'append', 't': 0, 'src': 0},
          {'op': 'indices', 't': 0}, {'op': 'select', 'src': 0, 'sel': ('idx', [5, 0])},
@@ -836,13 +1012,15 @@ def run(ctx):
         seqs.append(run_sequence(ctx, DFRA, ops))
         ctx.count('corpus_sequences')
     # bounded-exhaustive
-    base = ['append01', 'addcol', 'remove0', 'rename13', 'select', 'setsel0L', 'sort', 'copy', 'indices', 'setselL0']
+    base = ['append01', 'addcol', 'remove0', 'rename13', 'select', 'setsel0L', 'sort', 'copy', 'indices', 'setselL0',
+            'selblock', 'selmask']
     if ctx.thorough():
         seqs += exhaustive(ctx, DFRA, base + ['tidy', 'convert', 'append10', 'setitem1'], 4, False)
         seqs += exhaustive(ctx, DFRA, ['append01', 'addcol', 'remove0', 'rename13', 'select', 'setsel0L', 'sort', 'copy'], 5, True)
         seqs += exhaustive(ctx, DFRA, ['append01', 'rename13', 'select', 'setsel0L', 'sort', 'indices'], 6, True)
     else:
-        seqs += exhaustive(ctx, DFRA, ['append01', 'addcol', 'remove0', 'rename13', 'select', 'setsel0L', 'sort', 'copy'], 4, False)
+        seqs += exhaustive(ctx, DFRA, ['append01', 'addcol', 'remove0', 'rename13', 'selblock', 'setsel0L', 'sort', 'copy'], 4, False)
+        seqs += exhaustive(ctx, DFRA, ['select', 'selblock', 'selmask', 'setsel0L', 'setselL0', 'append01', 'indices'], 3, False)
         seqs += exhaustive(ctx, DFRA, base + ['tidy', 'convert', 'append10', 'setitem1'], 2, False)
     # random
     nrand = ctx.budget(120, 1200)
